@@ -86,6 +86,45 @@ func (x *Exec) specCall(c *SpecCtx, e *Expr) (*Val, error) {
 		c2.li = nil
 		c2.inBody = false
 		return x.specEval(c2, e.Args[0])
+	case "at":
+		// at(L, e): e evaluated in the labelled mid-state L
+		if err := need(2); err != nil {
+			return nil, err
+		}
+		if e.Args[0].Kind != "ident" {
+			return nil, fmt.Errorf("at(LABEL, expr)")
+		}
+		ls, ok := x.labels[e.Args[0].Name]
+		if !ok {
+			return nil, fmt.Errorf("label %s is not (yet) defined at this point", e.Args[0].Name)
+		}
+		c2 := c.inState(ls)
+		c2.li = nil
+		c2.inBody = false
+		return x.specEval(c2, e.Args[1])
+	case "sameSince":
+		// sameSince(L, p): every field of *p equals its value in the labelled state
+		if err := need(2); err != nil {
+			return nil, err
+		}
+		ls, ok := x.labels[e.Args[0].Name]
+		if !ok {
+			return nil, fmt.Errorf("label %s is not (yet) defined at this point", e.Args[0].Name)
+		}
+		pv, err := x.specEval(c, e.Args[1])
+		if err != nil {
+			return nil, err
+		}
+		pt, ok := pv.Typ.Underlying().(*types.Pointer)
+		if !ok {
+			return nil, fmt.Errorf("sameSince: not a pointer")
+		}
+		var cs []*Term
+		for _, lf := range leavesOf(pt.Elem()) {
+			key := objKey(pt.Elem(), lf.Path)
+			cs = append(cs, tEq(tSelect(x.heapGet(c.st, key, arr(SInt, lf.S)), pv.T), tSelect(x.heapGet(ls, key, arr(SInt, lf.S)), pv.T)))
+		}
+		return boolVal(tAnd(cs...)), nil
 	case "pre":
 		if err := need(1); err != nil {
 			return nil, err
